@@ -471,6 +471,7 @@ const strTheory = `
 (assert (forall ((a Str) (b Str)) (! (=> (str_eq a b) (= a b)) :pattern ((str_eq a b)))))
 (declare-datatypes ((Iface 0)) (((iface (itag Int) (ival Int)))))
 (define-fun inil () Iface (iface 0 0))
+(declare-datatypes ((Fuel 0)) (((FZ) (FS (fpred Fuel)))))
 `
 
 // seqTheoryFor performs a token-precise instantiation of the sequence theory.
@@ -624,6 +625,8 @@ func (r *Reg) Prelude() string {
 				fmt.Fprintf(&sb, "(%s %s)", fd.Par[i], a)
 			}
 			fmt.Fprintf(&sb, ") %s %s)\n", fd.Ret, fd.Def)
+		} else if fd.Rec {
+			fmt.Fprintf(&sb, "(declare-fun %s (Fuel %s) %s)\n", fd.Name, strings.Join(fd.Args, " "), fd.Ret)
 		} else {
 			fmt.Fprintf(&sb, "(declare-fun %s (%s) %s)\n", fd.Name, strings.Join(fd.Args, " "), fd.Ret)
 		}
@@ -631,19 +634,17 @@ func (r *Reg) Prelude() string {
 	for _, n := range r.funcOrd {
 		fd := r.funcs[n]
 		if fd.Def != "" && fd.Rec {
-			// unfolding axiom triggered on the application
-			var bs, as []string
+			// fuel-indexed unfolding: f(FS(n), x) = body[f(n, .)] and f(FS(n), x) = f(n, x)
+			bs := []string{"(fuel_n Fuel)"}
+			var as []string
 			for i, a := range fd.Args {
 				bs = append(bs, fmt.Sprintf("(%s %s)", fd.Par[i], a))
 				as = append(as, fd.Par[i])
 			}
-			app := "(" + fd.Name + " " + strings.Join(as, " ") + ")"
-			if len(as) == 0 {
-				app = fd.Name
-				fmt.Fprintf(&sb, "(assert (= %s %s))\n", app, fd.Def)
-			} else {
-				fmt.Fprintf(&sb, "(assert (forall (%s) (! (= %s %s) :pattern (%s))))\n", strings.Join(bs, " "), app, fd.Def, app)
-			}
+			app := "(" + fd.Name + " (FS fuel_n) " + strings.Join(as, " ") + ")"
+			app0 := "(" + fd.Name + " fuel_n " + strings.Join(as, " ") + ")"
+			fmt.Fprintf(&sb, "(assert (forall (%s) (! (= %s %s) :pattern (%s))))\n", strings.Join(bs, " "), app, fd.Def, app)
+			fmt.Fprintf(&sb, "(assert (forall (%s) (! (= %s %s) :pattern (%s))))\n", strings.Join(bs, " "), app, app0, app)
 		}
 	}
 	for _, a := range r.axioms {
